@@ -145,22 +145,49 @@ func c09CaseFromLeader(rt *rapid.T, rec *verifx.Recorder, r *c08Run, caseStart u
 				// verification (fast path) and rejected by every replica that performs it (after a restart or a snapshot
 				// installation inside the transaction's window): same log, different verdicts.
 				for _, v := range e.Verifies {
-					if !v.IsList || len(v.Hash) < 1 {
+					if len(v.Hash) < 1 {
 						continue
 					}
-					want := strings.Join(c09ModelList(c.States[e.StartPos], v.Prefix, v.After, v.Limit), "\n")
+					// what the verification names, in one state: the listing, or the value of the key ("\x00absent" when missing)
+					view := func(st c09State) string {
+						if v.IsList {
+							return strings.Join(c09ModelList(st, v.Prefix, v.After, v.Limit), "\n")
+						}
+						if val, ok := st[v.Key]; ok {
+							return "=" + string(val)
+						}
+						return "\x00absent"
+					}
+					want := view(c.States[e.StartPos])
 					same := true
 					for q := e.StartPos + 1; q < p; q++ {
-						if strings.Join(c09ModelList(c.States[q], v.Prefix, v.After, v.Limit), "\n") != want {
+						if view(c.States[q]) != want {
 							same = false
 						}
 					}
 					if !same {
 						continue
 					}
-					if h, err := createVerificationEntryOfType(v.Hash[0], v.Key, []byte(want)); err == nil && !bytes.Equal(h, v.Hash) {
-						rec.Violation(rt, "leader-commits-what-verifying-replicas-reject:list-hash-matches-no-state", r.detail(nil), "%s",
-							r.norm(fmt.Sprintf("T%d: the listing %s was %q in every state from its start @%d to its commit entry @%d, but the verification hash shipped in the entry is not the hash of that listing; the leader committed it without verifying (fast path), a replica that verifies it (restart or snapshot installation inside the transaction's window) rejects it", op.Txn.ID, v.Key, strings.Split(want, "\n"), e.StartIndex, le.Index)))
+					var h []byte
+					var herr error
+					what := "value of " + v.Key
+					if v.IsList {
+						h, herr = createVerificationEntryOfType(v.Hash[0], v.Key, []byte(want))
+						what = "listing " + v.Key
+					} else {
+						var val []byte
+						if sv, ok := c.States[e.StartPos][v.Key]; ok {
+							val = sv
+						}
+						h, herr = createVerificationEntryOfType(v.Hash[0], v.Key, val)
+					}
+					if herr == nil && !bytes.Equal(h, v.Hash) {
+						kind := "read"
+						if v.IsList {
+							kind = "list"
+						}
+						rec.Violation(rt, "leader-commits-what-verifying-replicas-reject:"+kind+"-hash-matches-no-state", r.detail(nil), "%s",
+							r.norm(fmt.Sprintf("T%d: the %s was %q in every state from its start @%d to its commit entry @%d, but the verification hash shipped in the entry is not the hash of that; the leader committed it without verifying (fast path), a replica that verifies it (restart or snapshot installation inside the transaction's window) rejects it", op.Txn.ID, what, want, e.StartIndex, le.Index)))
 						return nil
 					}
 				}
